@@ -920,8 +920,12 @@ fn adaptive_ops(ctx: &mut Ctx, rng: &mut Rng, ring: &HashRing, members: &[u64], 
     };
     cfg.hotkey_config.hot_threshold = 1.0;
     cfg.recalc_interval_ms = if rng.chance(1, 2) { 1 } else { u64::MAX };
-    let (base, hot) = (cfg.base_rf, cfg.hot_key_rf);
+    let (base, configured_hot) = (cfg.base_rf, cfg.hot_key_rf);
     let mut mgr = AdaptiveReplicationManager::new(cfg);
+    let hot = mgr.stats().hot_rf; // the factor in effect: configured, or raised to base_rf by the constructor
+    if hot != configured_hot && hot != configured_hot.max(base) {
+        ctx.out.violation("C19:adaptive:hot-rf-in-effect", "stats().hot_rf is neither the configured hot_key_rf nor max(hot_key_rf, base_rf)", json!({"base_rf": base, "hot_key_rf": configured_hot, "stats.hot_rf": hot}));
+    }
     let hot_keys: Vec<&String> = keys.iter().filter(|_| rng.chance(1, 3)).collect();
     let mut now = 1_000u64;
     for _ in 0..40 {
@@ -936,7 +940,7 @@ fn adaptive_ops(ctx: &mut Ctx, rng: &mut Rng, ring: &HashRing, members: &[u64], 
     mgr.force_recalculate(now);
     let overrides: BTreeMap<String, u8> = mgr.get_hot_key_updates().into_iter().collect();
     ctx.out.count(&format!("adaptive:hot-keys:{}", match overrides.len() { 0 => "0", 1..=3 => "1-3", _ => "4+" }));
-    ctx.out.count(&format!("adaptive:{}", if hot > base { "hot_rf>base_rf" } else if hot == base { "hot_rf=base_rf" } else { "hot_rf<base_rf" }));
+    ctx.out.count(&format!("adaptive:{}", if configured_hot > base { "hot_rf>base_rf" } else if configured_hot == base { "hot_rf=base_rf" } else { "hot_rf<base_rf" }));
     // ARF <base> <hot> <nhot> <hot keypos>* <m> <keypos>*
     let mut l = format!("ARF {} {} {}", base, hot, overrides.len());
     for k in overrides.keys() {
@@ -1019,7 +1023,7 @@ fn ad_summary(mgr: &redis_sim::production::AdaptiveReplicationManager) -> String
     let st = mgr.stats();
     let mut ov: Vec<(String, u8)> = mgr.get_hot_key_updates();
     ov.sort_by(|a, b| (a.0.len(), a.0.as_bytes()).cmp(&(b.0.len(), b.0.as_bytes())));
-    format!("ad tracked={} hot={} prom={} dem={} ov={}", st.tracked_keys, st.current_hot_keys, st.total_promotions, st.total_demotions,
+    format!("ad rf={}/{} tracked={} hot={} prom={} dem={} ov={}", st.base_rf, st.hot_rf, st.tracked_keys, st.current_hot_keys, st.total_promotions, st.total_demotions,
         ov.iter().map(|(k, rf)| format!("{}:{}", crate::enc::hex(k.as_bytes()), rf)).collect::<Vec<_>>().join(","))
 }
 
@@ -1048,7 +1052,14 @@ fn adaptive_session(ctx: &mut Ctx, rng: &mut Rng, fixed: Option<(u8, u8)>) {
         hotkey_config: HotKeyConfig { window_ms: window, hot_threshold: threshold as f64, cleanup_interval_ms: cleanup, max_tracked_keys: max_tracked } };
     let mut mgr = AdaptiveReplicationManager::new(cfg);
     ctx.out.op(format!("ADNEW {} {} {} {} {} {} {}", base, hot, recalc, window, threshold, cleanup, max_tracked), ad_summary(&mgr));
-    ctx.out.count(&format!("adsession:{}", if hot > base { "hot_rf>base_rf" } else if hot == base { "hot_rf=base_rf" } else { "hot_rf<base_rf" }));
+    // the hot-key factor IN EFFECT (the configured one; or raised to base_rf by the constructor): the
+    // model says which (Adaptive.effHot), the oracle below takes it from stats()
+    let configured_hot = hot;
+    let hot = mgr.stats().hot_rf;
+    if hot != configured_hot && hot != configured_hot.max(base) {
+        ctx.out.violation("C19:adaptive:hot-rf-in-effect", "stats().hot_rf is neither the configured hot_key_rf nor max(hot_key_rf, base_rf)", json!({"base_rf": base, "hot_key_rf": configured_hot, "stats.hot_rf": hot}));
+    }
+    ctx.out.count(&format!("adsession:{}", if configured_hot > base { "hot_rf>base_rf" } else if configured_hot == base { "hot_rf=base_rf" } else { "hot_rf<base_rf" }));
     ctx.out.count(&format!("adsession:max_tracked:{}", match max_tracked { 0 => "0", 1..=3 => "1-3", _ => "ample" }));
     let pool: Vec<String> = vec!["a".into(), "b".into(), "hot:1".into(), "".into(), "k\u{e9}y".into(), "zz".into()];
     let mut shadow: BTreeMap<String, (u64, u64)> = BTreeMap::new(); // key -> (first, total), approximate
@@ -1344,11 +1355,12 @@ fn gossip_loop_ops(ctx: &mut Ctx, ring: &HashRing, members: &[u64], spec: &Route
             let handle = GossipActor::spawn_with_router(cfg.clone(), router);
             tokio::spawn(GossipManager::start_gossip_loop_with_actor(cfg.clone(), handle, collect))
         };
-        let done = tokio::time::timeout(std::time::Duration::from_secs(10), rx).await;
+        // generous: 12 builders share the machine; the deadline only ends a run whose loop never ticks
+        let done = tokio::time::timeout(std::time::Duration::from_secs(60), rx).await;
         task.abort();
         let _ = task.await; // the loop's persistent connections are dropped here
         if done.is_err() {
-            return Err("the loop did not come back for a second batch within 10 s".to_string());
+            return Err("the loop did not come back for a second batch within 60 s".to_string());
         }
         for (i, l) in listeners.iter().enumerate() {
             // a completed connect() is acceptable at once; the timeout only ends the scan
